@@ -779,6 +779,44 @@ theorem C19_cex_conc_advancing_clock (hw : List UInt8) (c : Nat) :
   rw [hl, Nat.zero_add] at this
   exact this
 
+/-- What each goroutine SEES, every schedule whose wall clock never steps back (`WallOk`: every `wall t` action is
+    at or after the previous reading, inside the representable range) — however the readings and increments of
+    any number of goroutines interleave: every returned UUID carries EXACTLY the 100 ns tick of the reading its
+    caller held, that tick lies between the tick of the start reading and the tick of the wall clock at the end,
+    and the timestamps of ONE goroutine's results never decrease in return order.  (These are the burst op's
+    interval and per-goroutine monitors, here for all interleavings; across goroutines the timestamps need NOT be
+    monotone in increment order — the example below.) -/
+theorem C19_conc_goroutine_timestamps_monotone (hw : List UInt8) (c : Nat) (t0 : Int × Nat) (acts : List Act)
+    (h0 : Representable t0.1 t0.2) (hok : WallOk t0 acts) :
+    (∀ r ∈ (concRun hw (concInit c t0) acts).out,
+      timestamp r.uuid = tick r.reading ∧ tick t0 ≤ timestamp r.uuid ∧
+      timestamp r.uuid ≤ tick (concRun hw (concInit c t0) acts).wall) ∧
+    (concRun hw (concInit c t0) acts).out.Pairwise (fun a b => a.g = b.g → timestamp a.uuid ≤ timestamp b.uuid) := by
+  have hinit : MonoInv t0 (concInit c t0) :=
+    ⟨h0, readingLe_refl _, fun p hp => (by cases hp), fun r hr => (by cases hr),
+      fun p hp => (by cases hp), List.Pairwise.nil⟩
+  obtain ⟨⟨wr, _, _, ol, _, pw⟩, _⟩ := monoInv_run hw t0 acts (concInit c t0) hinit hok
+  refine ⟨fun r hr => ?_, ?_⟩
+  · obtain ⟨h1, h2, h3, h4⟩ := ol r hr
+    refine ⟨h4, ?_, ?_⟩
+    · rw [h4]; exact tick_mono _ _ h0 h3 h2
+    · rw [h4]; exact tick_mono _ _ h3 wr h1
+  · rw [List.pairwise_iff_getElem] at pw ⊢
+    intro i j hi hj hij hg
+    have := pw i j hi hj hij hg
+    obtain ⟨_, _, ri, ei⟩ := ol _ (List.getElem_mem hi)
+    obtain ⟨_, _, rj, ej⟩ := ol _ (List.getElem_mem hj)
+    rw [ei, ej]
+    exact tick_mono _ _ ri rj this
+
+/-- non-vacuity: the schedule of the example below satisfies `WallOk`, and ACROSS goroutines the timestamps do
+    decrease in increment order (goroutine 0 was overtaken) -/
+example : WallOk (1700000000, 0) [.now 0, .wall (1700000000, 100), .now 1, .inc 1, .inc 0] := by
+  refine ⟨Or.inr ⟨rfl, by decide⟩, by decide, trivial⟩
+example : ((concRun [1, 2, 3, 4, 5, 6] (concInit 7 (1700000000, 0))
+    [.now 0, .wall (1700000000, 100), .now 1, .inc 1, .inc 0]).out.map (fun r => timestamp r.uuid)) =
+    [139192928000000001, 139192928000000000] := by decide
+
 /-- the run the native driver executes on long schedules (results accumulated newest-first, reversed at the end)
     is the machine's run -/
 theorem C19_conc_fast_eq (hw : List UInt8) (s : Conc) (acts : List Act) : concRunFast hw s acts = concRun hw s acts :=
